@@ -2,6 +2,7 @@ import SlugModel.Lemmas.TrEq_validSymlink
 import SlugModel.Lemmas.TrEq_allowedSymlinkTarget
 import SlugModel.Lemmas.TrEq_isWithin
 import SlugModel.Lemmas.TrEq_newUnpackInfo
+import SlugModel.Props.C04
 /-!
 # C04 (tie by translation)
 
@@ -37,5 +38,84 @@ theorem C04_tie_newUnpackInfo (fs : FS) (dst : Str) (e : Entry) :
        | some p => (({ path := p, typeflag := e.typ } : Go.UnpackInfo), false)
        | none => (({ path := [], typeflag := Char.ofNat 0 } : Go.UnpackInfo), true)) :=
   gen_newUnpackInfo fs dst e
+
+/-! ### The property, stated over the translated function
+
+`validSymlink` returns `(true, nil)` or `(false, error)`; read as `(true, false)` and `(false, true)`. -/
+
+/-- the absolute target `validSymlink` tests: an absolute target cleaned, a relative one joined onto the
+directory of the (absolute) link path -/
+def symlinkAbsTarget (cwd root path target : Str) : Str :=
+  if isAbs target then pathClean target
+  else pathJoin (pathDir (if isAbs path then path else pathJoin (pathAbs cwd root) path)) target
+
+/-- **C04_gen_validSymlink_spec.** The Go function `validSymlink` (slug.go), as translated, for every working
+directory, allow-list, root, link path and target: it accepts exactly when the absolute target is lexically
+inside the absolute root (`isWithin`) or is allow-listed (`allowedSymlinkTarget`), and it returns an error
+exactly when it does not accept. -/
+theorem C04_gen_validSymlink_spec (cwd : Str) (allow : List Str) (root path target : Str) :
+    Gen.validSymlink cwd allow root path target =
+      ((isWithin (pathAbs cwd root) (symlinkAbsTarget cwd root path target) ||
+         allowedTarget allow (pathAbs cwd root) (symlinkAbsTarget cwd root path target)),
+       !(isWithin (pathAbs cwd root) (symlinkAbsTarget cwd root path target) ||
+         allowedTarget allow (pathAbs cwd root) (symlinkAbsTarget cwd root path target))) := by
+  have e : validSymlink cwd allow root path target =
+      (isWithin (pathAbs cwd root) (symlinkAbsTarget cwd root path target) ||
+         allowedTarget allow (pathAbs cwd root) (symlinkAbsTarget cwd root path target)) := by
+    unfold validSymlink symlinkAbsTarget
+    simp only
+    split <;> simp_all
+  rw [gen_validSymlink, e]
+
+/-- **C04_gen_validSymlink_iff.** With an empty allow-list the verdict of the translated `validSymlink` is exactly
+the lexical containment test `isWithin absRoot absTarget`, and the error result its negation. -/
+theorem C04_gen_validSymlink_iff (cwd root path target : Str) :
+    Gen.validSymlink cwd [] root path target =
+      (isWithin (pathAbs cwd root) (symlinkAbsTarget cwd root path target),
+       !isWithin (pathAbs cwd root) (symlinkAbsTarget cwd root path target)) := by
+  rw [C04_gen_validSymlink_spec, allowedTarget_nil, Bool.or_false]
+
+/-- **C04_gen_validSymlink_iff_dst.** The same as `Unpack` calls it: for a destination that is an absolute clean
+path other than `/` and a relative link name `ln` (the entry's path relative to `dst`), with an empty
+allow-list the translated `validSymlink` accepts exactly when the target — cleaned if absolute, otherwise joined
+onto the directory of `dst/ln` — is lexically inside `dst`. -/
+theorem C04_gen_validSymlink_iff_dst (cwd dst ln t : Str) (hdst : DstOK dst) (hln : isAbs ln = false) :
+    Gen.validSymlink cwd [] dst ln t =
+      (isWithin dst (if isAbs t then pathClean t else pathJoin (pathDir (pathJoin dst ln)) t),
+       !isWithin dst (if isAbs t then pathClean t else pathJoin (pathDir (pathJoin dst ln)) t)) := by
+  rw [gen_validSymlink, validSymlink_eq cwd dst ln t hdst hln]
+
+/-- **C04_gen_validSymlink_abs_needs_allow.** Any allow-list: if the translated `validSymlink` accepts an
+absolute target, the cleaned target is lexically inside the absolute root or is an allow-listed one (or lies
+below one). -/
+theorem C04_gen_validSymlink_abs_needs_allow (cwd : Str) (allow : List Str) (root path target : Str)
+    (ha : isAbs target = true) (h : Gen.validSymlink cwd allow root path target = (true, false)) :
+    isWithin (pathAbs cwd root) (pathClean target) = true ∨
+      allowedTarget allow (pathAbs cwd root) (pathClean target) = true := by
+  rw [C04_gen_validSymlink_spec] at h
+  have h1 := (Prod.mk.inj h).1
+  simp only [symlinkAbsTarget, ha, if_true] at h1
+  simpa using h1
+
+/-- **C04_gen_validSymlink_abs_refused.** With an empty allow-list the translated `validSymlink` refuses, with an
+error, every absolute target whose cleaned form is not lexically inside the absolute root — whatever the link
+path. -/
+theorem C04_gen_validSymlink_abs_refused (cwd root path target : Str) (ha : isAbs target = true)
+    (hout : isWithin (pathAbs cwd root) (pathClean target) = false) :
+    Gen.validSymlink cwd [] root path target = (false, true) := by
+  rw [C04_gen_validSymlink_iff]
+  simp only [symlinkAbsTarget, ha, if_true, hout]
+  rfl
+
+/-- **C04_gen_validSymlink_accepted_lexInside.** What the translated `validSymlink` accepts with an empty
+allow-list, in components: for the extraction path `path` of an entry (absolute, clean, below `dst`) whose name
+relative to `dst` is `ln`, the lexical resolution of the accepted target from the directory of `path` stays
+below `dst`. -/
+theorem C04_gen_validSymlink_accepted_lexInside (cwd dst path ln t : Str) (hdst : DstOK dst)
+    (hp : isAbs path = true ∧ pathClean path = path) (hpre : pathSegs dst <+: pathSegs path)
+    (hrel : pathRel dst path = some ln) (h : Gen.validSymlink cwd [] dst ln t = (true, false)) :
+    pathSegs dst <+: cleanSegs true ((if isAbs t then [] else (pathSegs path).dropLast) ++ pathSegs t) := by
+  rw [gen_validSymlink] at h
+  exact C04_accepted_lexInside cwd dst path ln t hdst hp hpre hrel (Prod.mk.inj h).1
 
 end Slug
